@@ -446,7 +446,8 @@ def run_task(name):
             warnings.simplefilter('ignore')
             n, outcomes = PARTS[name]()
         return dict(part=name, n=n, outcomes=outcomes, violations=[])
-    except Violation as v:
+    except Exception as e:
+        v = e if isinstance(e, Violation) else choice.library_exception(e, f'in part {name}')
         return dict(part=name, n=1, outcomes=set(), violations=[(v.key, v.what)])
 
 
